@@ -88,6 +88,9 @@ CHECKS = {
  'C38': ('exploration', 'full matrix value type x placement x read path x ending x later reader',
          'Reference-typed values ([]byte, map, []int, *struct, struct with slice; string as control) and a struct key with slice/map, read through GetCurrentValue/GetCurrentItem/NoLock variants/scans/GetCurrentKey under 7 placements, modified in place, then Rollback / Commit without write-back / Commit with an unrelated write / ForReading / NoCheck; four later readers (same transaction, next transaction warm, after cache reset, fresh process) must all read the committed value (3500 cells, 14000 comparisons; 7000 cells thorough).',
          'Single-level trees, slot length <= 4.', '6/C38', 'SEQX', True),
+ 'C22': ('fault_enumeration', 'exhaustive crash points and torn prefixes of one registry block update x concurrent reader process at every writer position',
+         'Four writers (UpdateNoLocks of slot 3, of slot 65 next to the CRC, Update with locks, Remove) on a block with three handles: the writer process is killed before every mutating file operation and after every torn prefix of the .cow write and of the 4096-byte block write (every 62-byte and 512-byte boundary, every byte inside the changed slot, around the CRC); for every crash plan a second OS process reads the block while the writer is paused before each earlier operation. The concurrent reader and a later cold reader must be served exactly the old or exactly the new handles, never an error or a record that was never written.',
+         'A completed write is durable; one concurrent reader at one position per plan (torn plans: reader positions {none, just before the torn write} in quick, all in thorough).', '6/C22', 'FAULTX', True),
 }
 NA_REASON = 'check not built yet in this session; no claim is made (see DESIGN.md section 6 for the plan)'
 
